@@ -41,6 +41,12 @@ type keyProvider struct {
 }
 
 func (p *keyProvider) provideKey(token *jwt.Token) (interface{}, error) {
+	// if the key declares its algorithm ("alg" parameter, RFC 7517 Section 4.4),
+	// the key must not be used with other algorithm
+	if alg := p.key.Algorithm; alg != "" && alg != token.Method.Alg() {
+		return nil, fmt.Errorf("token alg[%s] is not key alg[%s]", token.Method.Alg(), alg)
+	}
+
 	return p.key.Key, nil
 }
 
